@@ -131,3 +131,12 @@ Definition chk_sshsig
   let '(msg, ih, raw, principal, entries, now, calls, pubs, addrs, digests, got) := c in
   sres_code (sshsig_validate (sigok_of calls) (member_of pubs) (fun _ _ => true) (member_of addrs)
                              (hash_of digests) msg ih raw principal entries now) =? got.
+
+(* --- time values under a process time zone --- *)
+Definition chk_parse_time (c : tspec * Z * Z * option Z) : bool :=
+  let '(s, off, now, got) := c in option_eqb Z.eqb (parse_time s off now) got.
+
+(* (valid-after, valid-before, zone offset, time of parsing, time of the check, observed 0/1/2) *)
+Definition chk_time_window (c : option tspec * option tspec * Z * Z * Z * Z) : bool :=
+  let '(va, vb, off, pnow, now, got) := c in window_decision va vb off pnow now =? got.
+
